@@ -32,6 +32,10 @@ StateJson(s) ==
    exports |-> {[name |-> x, node |-> s.exports[x]] : x \in DOMAIN s.exports},
    implicit |-> GraphImportsImplicit(AbsView(s)),
    encode |-> EncodeOutcome(AbsView(s)),
+   kf |-> KnownFindings(s),
+   \* some removal candidate reaches a dependant twice: its outcome depends on hash iteration order
+   hashsens |-> \E n \in ILive(s) : LET T == DepSucc(AbsView(s), n) \cup AliasSucc(AbsView(s), n)
+                                     IN \E t1, t2 \in T : t1 # t2 /\ t2 \in Closure(AbsView(s), {t1}),
    comp |-> IF EncodeOutcome(AbsView(s)) = {"ok"} THEN EncodeOf(AbsView(s)) ELSE <<>>]
 
 Digest(st) ==
